@@ -1,6 +1,7 @@
 package props
 
 import (
+	"context"
 	"bytes"
 	"encoding/json"
 	"fmt"
@@ -41,6 +42,9 @@ type c06Params struct {
 	// Duplex: both directions at once - on each end one task writes while another reads (Reads begin while a Write
 	// of the same connection is in flight and the other way round)
 	Duplex bool `json:"duplex,omitempty"`
+	// HSCtx: both ends run the handshake through HandshakeContext with a context of their own and release it
+	// (cancel) as soon as the handshake has succeeded, as `defer cancel()` does: the connection must not care
+	HSCtx bool `json:"hs_ctx,omitempty"`
 }
 
 func (c06) ID() string    { return "C06" }
@@ -116,6 +120,7 @@ func drawC06(src *vs.Src) *c06Params {
 	if src.Bool(1, 5) {
 		p.Duplex, p.Poll, p.Hold, p.ServerFirst = true, false, 0, false
 	}
+	p.HSCtx = src.Bool(1, 4)
 	if p.Seg == 2 || src.Bool(1, 2) {
 		// avoid quadratic cost of tiny buffers over large data: make sure one large buffer is in the cycle
 		p.RBuf = append(p.RBuf, 16384)
@@ -207,10 +212,23 @@ func (c06) Run(c *Case, src *vs.Src) *Result {
 	pair.Pipe.C.EOFJoin, pair.Pipe.S.EOFJoin = p.EOFJoin, p.EOFJoin
 	c2s, s2c := mkPayloads(src, p.C2S, 1), mkPayloads(src, p.S2C, 100)
 	var cs, ss c06Side
+	hs := func(ep EP) error {
+		if !p.HSCtx {
+			return ep.Handshake()
+		}
+		ctx, cancel := context.WithCancel(context.Background())
+		err := ep.(tEP).Conn.HandshakeContext(ctx)
+		cancel()
+		if err == nil {
+			// give whatever the library hung on the context a moment (real time) to act
+			time.Sleep(200 * time.Microsecond)
+		}
+		return err
+	}
 	if p.Duplex {
 		cUp, sUp, cRd, sWr := false, false, false, false
 		w.Go("client", func() {
-			cs.HSErr = pair.C.Handshake()
+			cs.HSErr = hs(pair.C)
 			cUp = true
 			if cs.HSErr != nil {
 				pair.C.Close()
@@ -230,7 +248,7 @@ func (c06) Run(c *Case, src *vs.Src) *Result {
 			cRd = true
 		})
 		w.Go("server", func() {
-			ss.HSErr = pair.S.Handshake()
+			ss.HSErr = hs(pair.S)
 			sUp = true
 			if ss.HSErr != nil {
 				pair.S.Close()
@@ -252,7 +270,7 @@ func (c06) Run(c *Case, src *vs.Src) *Result {
 		if p.Duplex {
 			return
 		}
-		if cs.HSErr = pair.C.Handshake(); cs.HSErr != nil {
+		if cs.HSErr = hs(pair.C); cs.HSErr != nil {
 			pair.C.Close()
 			return
 		}
@@ -279,7 +297,7 @@ func (c06) Run(c *Case, src *vs.Src) *Result {
 		if p.Duplex {
 			return
 		}
-		if ss.HSErr = pair.S.Handshake(); ss.HSErr != nil {
+		if ss.HSErr = hs(pair.S); ss.HSErr != nil {
 			pair.S.Close()
 			return
 		}
